@@ -983,6 +983,163 @@ func runF8(p *an.Prog, r *an.Result) {
 		})
 	}
 	r.Floor("slices made with a length", 3)
+	f8Filled(p, r)
+}
+
+// f8Filled: in a filter, a result slice made with a length has every element assigned: it is the
+// destination of a copy, or it is stored into at index i or len-1-i for every i of a forward loop
+// over the whole of a collection of that length. (A loop that stops where two indices meet leaves
+// the middle element of an odd-length result nil.)
+func f8Filled(p *an.Prog, r *an.Result) {
+	roles := GetRoles(p)
+	for _, f := range roles.Filters {
+		if !f.InMod || f.Fn == nil {
+			continue
+		}
+		for _, fn := range unitOf(f.Fn) {
+			an.EachInstr(fn, func(in ssa.Instruction) {
+				ms, ok := in.(*ssa.MakeSlice)
+				if !ok {
+					return
+				}
+				if c, isC := an.ConstInt(ms.Len); isC && c == 0 {
+					return
+				}
+				lenOf := lenOperand(norm(ms.Len).v)
+				r.Counts["filter results made with a length"]++
+				copied, stores, bad := false, 0, ""
+				seen := map[ssa.Value]bool{}
+				var walk func(v ssa.Value)
+				walk = func(v ssa.Value) {
+					if seen[v] || v.Referrers() == nil {
+						return
+					}
+					seen[v] = true
+					for _, u := range *v.Referrers() {
+						switch x := u.(type) {
+						case *ssa.Phi:
+							walk(x)
+						case *ssa.Call:
+							if b, ok := x.Call.Value.(*ssa.Builtin); ok && b.Name() == "copy" && x.Call.Args[0] == v {
+								copied = true
+							}
+						case *ssa.IndexAddr:
+							if x.X != v || len(an.Stores(x)) == 0 && !hasStore(x) {
+								continue
+							}
+							stores++
+							lf := linOf(x.Index, 0)
+							var ri ssa.Value
+							var riCoef, lenCoef int64
+							okForm := true
+							cst := lf.c
+							for a, cf := range lf.coef {
+								switch {
+								case cf == 0:
+								case lenOperand(a) != nil && (eqVal(lenOperand(a), v) || lenOf != nil && eqVal(lenOperand(a), lenOf)):
+									lenCoef += cf
+								default:
+									// the index of a loop over the whole length: r = a + k runs from 0 to the bound
+									k, full := fullLoopIndex(a, lenOf, ms.Len)
+									if !full {
+										okForm = false
+										continue
+									}
+									ri, riCoef = a, cf
+									cst -= cf * k // in terms of r
+								}
+							}
+							switch {
+							case !okForm || ri == nil:
+								bad = "an index that is not the index of a loop over its whole length, or the mirror image of one"
+							case riCoef == 1 && lenCoef == 0 && cst == 0, riCoef == -1 && lenCoef == 1 && cst == -1:
+							default:
+								bad = "an index that is not the index of a loop over its whole length, or the mirror image of one"
+							}
+						}
+					}
+				}
+				walk(ms)
+				name := f.Label()
+				switch {
+				case copied:
+					r.OK(name, "result slice filled by copy", ms.Pos(), "")
+				case stores > 0 && bad == "":
+					r.OK(name, "result slice filled element by element over its whole length", ms.Pos(), "stored at i or len-1-i for every i of a forward loop over a collection of the same length")
+				case stores == 0:
+					r.OK(name, "result slice handed on unfilled", ms.Pos(), "no element store and no copy in this function: filled by a callee, if at all (not decided here)")
+				default:
+					r.Bad(name, "result slice not filled completely", ms.Pos(), fmt.Sprintf("filter %q makes its result with %s elements and fills it with %s: some element may keep its zero value (nil) - the middle one of an odd-length array when two indices meet", f.Name, describe(p, ms.Len), bad))
+				}
+			})
+		}
+	}
+	r.Floor("filter results made with a length", 3)
+}
+
+func hasStore(ia *ssa.IndexAddr) bool {
+	if ia.Referrers() == nil {
+		return false
+	}
+	for _, u := range *ia.Referrers() {
+		if st, ok := u.(*ssa.Store); ok && st.Addr == ssa.Value(ia) {
+			return true
+		}
+	}
+	return false
+}
+
+// fullLoopIndex: a is the induction variable of a loop such that r = a + k starts at 0, steps by 1 and
+// goes on while r < n, with n the length the result was made with (the same value, or len of the same
+// collection). For a range loop a starts at -1 and k is 1; for a three-clause loop k is 0.
+func fullLoopIndex(a ssa.Value, lenOf ssa.Value, n ssa.Value) (int64, bool) {
+	ph, ok := a.(*ssa.Phi)
+	if !ok {
+		return 0, false
+	}
+	inits, steps := 0, 0
+	var init int64
+	for _, e := range ph.Edges {
+		et := norm(e)
+		switch {
+		case et.v == nil:
+			inits++
+			init = et.off
+		case et.v == ssa.Value(ph) && et.off == 1:
+			steps++
+		default:
+			return 0, false
+		}
+	}
+	if inits != 1 || steps < 1 {
+		return 0, false
+	}
+	k := -init
+	// the loop test: r < bound, in the block of the phi
+	b := ph.Block()
+	ifi, ok := b.Instrs[len(b.Instrs)-1].(*ssa.If)
+	if !ok {
+		return 0, false
+	}
+	cmp, ok := ifi.Cond.(*ssa.BinOp)
+	if !ok || cmp.Op != token.LSS {
+		return 0, false
+	}
+	lt, bt := norm(cmp.X), norm(cmp.Y)
+	if lt.v != ssa.Value(ph) || bt.v == nil {
+		return 0, false
+	}
+	// (ph + lt.off) < bound + bt.off  <=>  r < bound + bt.off + k - lt.off
+	if bt.off+k-lt.off != 0 {
+		return 0, false
+	}
+	if eqVal(bt.v, norm(n).v) {
+		return k, true
+	}
+	if lx := lenOperand(bt.v); lx != nil && lenOf != nil && eqVal(lx, lenOf) {
+		return k, true
+	}
+	return 0, false
 }
 
 // ---------------------------------------------------------------------------
@@ -1175,4 +1332,137 @@ func runP12(p *an.Prog, r *an.Result) {
 		})
 	}
 	r.Floor("reflective field reads", 1)
+}
+
+// ---------------------------------------------------------------------------
+// F10
+
+func init() {
+	register("F10", "no filter judges whether two values are the same by their printed form: no map in the filter package is keyed by the text fmt made of a value (1, \"1\" and 1.0 print alike and are different values)", runF10)
+}
+
+func runF10(p *an.Prog, r *an.Result) {
+	roles := GetRoles(p)
+	printed := func(v ssa.Value) bool {
+		return an.Reaches(v, an.StepValue, func(o ssa.Value) bool {
+			c := an.CallOf(o)
+			if c == nil {
+				return false
+			}
+			switch an.CallName(c) {
+			case "fmt.Sprint", "fmt.Sprintf", "fmt.Sprintln":
+				return true
+			}
+			return false
+		})
+	}
+	seenFn := map[*ssa.Function]bool{}
+	for _, f := range roles.Filters {
+		if !f.InMod || f.Fn == nil {
+			continue
+		}
+		for _, fn := range unitWithHelpers(p, f.Fn) {
+			if seenFn[fn] || fn.Pkg == nil || an.RelPkg(fn.Pkg.Pkg.Path()) != "filters" {
+				continue
+			}
+			seenFn[fn] = true
+			name := roles.Label(fn)
+			an.EachInstr(fn, func(in ssa.Instruction) {
+				var key ssa.Value
+				var what string
+				switch x := in.(type) {
+				case *ssa.MapUpdate:
+					key, what = x.Key, "map update"
+				case *ssa.Lookup:
+					if _, isMap := x.X.Type().Underlying().(*types.Map); isMap {
+						key, what = x.Index, "map lookup"
+					}
+				}
+				if key == nil {
+					return
+				}
+				r.Counts["map accesses in filters"]++
+				if printed(key) {
+					r.Bad(name, what+" keyed by printed form", an.InstrPos(in), fmt.Sprintf("%s keys a map by the text fmt makes of a value: values that are different but print alike (1 and \"1\", nil and \"<nil>\") share an entry", an.FuncName(fn)))
+				} else {
+					r.OK(name, what+" keyed by the value itself", an.InstrPos(in), "")
+				}
+			})
+		}
+	}
+	r.Floor("map accesses in filters", 1)
+}
+
+// ---------------------------------------------------------------------------
+// F11
+
+func init() {
+	register("F11", "a wrapped drop behaves as the value it resolves to, in every respect: each method of the Value interface on the drop wrapper returns what the same method of Resolve() returns, with the same arguments", runF11)
+}
+
+func runF11(p *an.Prog, r *an.Result) {
+	var valueIface *types.Interface
+	var wrapperT *types.Named
+	for _, n := range moduleNamedTypes(p) {
+		if an.RelPkg(n.Obj().Pkg().Path()) != "values" {
+			continue
+		}
+		if n.Obj().Name() == "Value" {
+			valueIface, _ = n.Underlying().(*types.Interface)
+		}
+		if n.Obj().Name() == "dropWrapper" {
+			wrapperT = n
+		}
+	}
+	if valueIface == nil || wrapperT == nil {
+		r.Bad("-", "values.Value or the drop wrapper not found", token.NoPos, "anchor not resolved")
+		return
+	}
+	for i := 0; i < valueIface.NumMethods(); i++ {
+		m := valueIface.Method(i)
+		impl := methodImpl(p, types.NewPointer(wrapperT), m.Name())
+		if impl == nil {
+			impl = methodImpl(p, wrapperT, m.Name())
+		}
+		if impl == nil || impl.Blocks == nil {
+			r.Bad("dropWrapper."+m.Name(), "method not found", token.NoPos, "anchor not resolved")
+			continue
+		}
+		name := an.FuncName(impl)
+		r.Counts["drop wrapper methods"]++
+		good, n := true, 0
+		why := ""
+		an.EachInstr(impl, func(in ssa.Instruction) {
+			ret, ok := in.(*ssa.Return)
+			if !ok {
+				return
+			}
+			for _, rv := range resultsOf(ret) {
+				n++
+				for _, o := range an.Origins(rv, an.StepValue) {
+					c := an.CallOf(o)
+					if c == nil || !c.IsInvoke() || c.Method.Name() != m.Name() {
+						good, why = false, "a result does not come from Resolve()."+m.Name()
+						continue
+					}
+					rc := an.CallOf(c.Value)
+					if rc == nil || rc.StaticCallee() == nil || rc.StaticCallee().Name() != "Resolve" || len(rc.Args) == 0 || rc.Args[0] != ssa.Value(impl.Params[0]) {
+						good, why = false, "the method is not invoked on this wrapper's Resolve()"
+						continue
+					}
+					for k, a := range c.Args {
+						if k+1 >= len(impl.Params) || a != ssa.Value(impl.Params[k+1]) {
+							good, why = false, "the arguments are not passed on as given"
+						}
+					}
+				}
+			}
+		})
+		if good && n > 0 {
+			r.OK(name, "delegates to Resolve()."+m.Name(), an.FuncPos(impl), "")
+		} else {
+			r.Bad(name, "does not delegate to Resolve()."+m.Name(), an.FuncPos(impl), fmt.Sprintf("%s answers for the drop itself (%s): a drop nested in a map or an array, which is still wrapped when an operator looks at it, behaves differently from the value it stands for", an.FuncName(impl), why))
+		}
+	}
+	r.Floor("drop wrapper methods", 8)
 }
